@@ -40,7 +40,9 @@ fn enckey(scheme: usize, idx: usize) -> (EncapsulationPrivateKey, EncapsulationP
 }
 
 fn subjects() -> Vec<Spec> {
-    vec![l(1), k(1001), w(n(l(1), vec![a(l(2), l(3))])), n(l(1), vec![a(l(2), l(3)), a(l(4), w(l(5)))]), a(l(1), l(2))]
+    vec![l(1), k(1001), w(n(l(1), vec![a(l(2), l(3))])), n(l(1), vec![a(l(2), l(3)), a(l(4), w(l(5)))]), a(l(1), l(2)),
+         // an envelope whose subject is itself a node (what uncompress_subject / decrypt_subject give back after assertions were added to the obscured node)
+         n(n(l(1), vec![a(l(2), l(3))]), vec![a(l(4), l(5))])]
 }
 
 // ------------------------------------------------------------------------------------ C09
@@ -96,7 +98,7 @@ fn signed_envelope(base: &Envelope, keys: &[(SigningPrivateKey, SigningPublicKey
 
 fn c09_signers() -> R {
     let subs = subjects();
-    let s = &subs[choice(3)];
+    let s = &subs[[0usize, 1, 2, 5][choice(4)]];
     let keys: Vec<(SigningPrivateKey, SigningPublicKey)> = (0..3).map(|i| sigkey(0, i)).collect();
     let signers = rt::subset(3);
     let with_meta = if flag() { 0 } else { 3 };
@@ -329,7 +331,7 @@ pub fn prop_c09() -> Prop {
         id: "C09",
         scenarios: vec![
             Scenario { name: "signers", f: c09_signers, thorough_only: false,
-                bounds: "3 subjects (leaf, known value, wrapped node) x every signer subset of 3 Ed25519 keys x metadata on signer 0 or none x other assertion added before / after signing x every non-empty key list, every threshold 1..n+1 and None x every digest order (which 'signed' assertion comes first is the hash's choice); different subject; sign/verify(_returning_metadata). Keys are concrete (VERIF_SEED)",
+                bounds: "4 subjects (leaf, known value, wrapped node, node whose subject is a node) x every signer subset of 3 Ed25519 keys x metadata on signer 0 or none x other assertion added before / after signing x every non-empty key list, every threshold 1..n+1 and None x every digest order (which 'signed' assertion comes first is the hash's choice); different subject; sign/verify(_returning_metadata). Keys are concrete (VERIF_SEED)",
                 api: &["add_signature_opt", "has_signature_from", "verify_signature_from", "verify_signature_from_returning_metadata", "has_signatures_from_threshold", "verify_signatures_from_threshold", "has_signatures_from", "sign", "verify", "verify_returning_metadata", "replace_subject"] },
             Scenario { name: "obscured", f: c09_obscured, thorough_only: false,
                 bounds: "5 subjects (also node with 2 assertions, assertion) signed by 2 of 3 keys (one with metadata) + one other assertion x any single part outside the signature assertions obscured by any of 3 actions x every digest order; reveal-only-signatures form",
